@@ -141,6 +141,16 @@ fn v9_protocol_number(value: &FieldValue) -> Option<u8> {
     }
 }
 
+/// The name of a V9 PROTOCOL field is the one it was decoded with; a plain number (a field sent
+/// with another width) is looked up.
+fn v9_protocol_type(value: &FieldValue) -> Option<ProtocolTypes> {
+    match value {
+        FieldValue::ProtocolType(ProtocolTypes::Unknown) => None,
+        FieldValue::ProtocolType(protocol) => Some(*protocol),
+        other => unsigned::<u8>(other).map(ProtocolTypes::from),
+    }
+}
+
 /// The V9 FIRST_SWITCHED / LAST_SWITCHED fields (sysUpTime in milliseconds) are decoded as
 /// `FieldValue::Duration`: recover the millisecond count.
 fn v9_uptime_millis(value: &FieldValue) -> Option<u32> {
@@ -176,8 +186,7 @@ impl From<&V9> for NetflowCommon {
                             .and_then(v9_protocol_number),
                         protocol_type: value_map
                             .get(&V9Field::Protocol)
-                            .and_then(v9_protocol_number)
-                            .map(ProtocolTypes::from),
+                            .and_then(v9_protocol_type),
                         first_seen: value_map
                             .get(&V9Field::FirstSwitched)
                             .and_then(v9_uptime_millis),
